@@ -39,6 +39,15 @@ def handle : Handler := fun j => do
       if a != "equal" then some s!"first-writer-file-{a}-after-interleaved-write"
       else if b != "equal" then some s!"second-writer-file-{b}-after-interleaved-write" else none
     return verdict judge.isNone judge Json.null [if inter then "writers-interleaved" else "writers-not-interleaved"]
+  if op == "mountpoint" then
+    -- rename onto a mount point fails (`Fault.renameFails`): the model leaves the previous content and reports the error
+    let err ← getBool obs "err"
+    let status ← (← obs.getObjVal? "status").getStr?
+    let judge : Option String :=
+      if status == "partial" then some "spec-named-file-with-partial-or-foreign-content"
+      else if !err && status != "new" then some "write-reported-success-but-target-lacks-new-content" else none
+    return verdict ((err && status == "previous") || (!err && status == "new")) judge Json.null
+      [if getBoolD obs "skipped" false then "mount-namespace-unavailable" else "target-is-a-mount-point"]
   let before ← readEntries j "before"
   let dst ← getStr j "dst"
   let new ← getStr j "new"
